@@ -149,7 +149,14 @@ func combinedUUID(op string, lo *storage.LookupOptions, uuids ...uuid.UUID) stri
 	for _, id := range uuids {
 		ss = append(ss, id.String())
 	}
-	return fmt.Sprintf("%s:%s:%s", op, lo.UUID().String(), strings.Join(ss, ":"))
+	k := fmt.Sprintf("%s:%s:%s", op, lo.UUID().String(), strings.Join(ss, ":"))
+	if lo.Offset != 0 {
+		// LookupOptions.UUID does not cover the paging offset, so without it every
+		// page of a lookup would be served from the cache entry of the first page
+		// that was requested.
+		k = fmt.Sprintf("%s:offset=%d", k, lo.Offset)
+	}
+	return k
 }
 
 // Objects pushes to the provided channel the objects for the given object and
